@@ -1315,6 +1315,153 @@ def gen_ebrproto(internal, em_epoch, ep_fns):
     return s
 
 
+
+def gen_apicalls(strong_src, weak_src):
+    """For every function of strong.rs / weak.rs (inherent and trait impls, free functions): the calls to the count protocol of
+    RcInner it makes, in textual order, with the count and the guard argument; calls to private helpers of the same file are replaced
+    by the helper's own list (parameters substituted).  Only entry points (pub / trait impl functions) are listed."""
+    CORE = {'increment_strong': 0, 'decrement_strong': 3, 'increment_weak': 1, 'decrement_weak': 2, 'is_not_destructed': 0, 'alloc': 2}
+
+    def norm(a):
+        a = re.sub(r"\s+", "", a)
+        a = re.sub(r"as(?:u32|u64|usize|_)$", "", a)
+        a = re.sub(r"^self\.", "", a)
+        return a
+
+    def acount(a):
+        a = norm(a)
+        if re.fullmatch(r"\d+", a):
+            return "(CNum %s)" % a
+        return '(CVar "%s")' % a
+
+    def aguard(a):
+        a = norm(a)
+        if a == 'None':
+            return 'GNone'
+        if a.startswith('Some('):
+            return 'GSome'
+        return '(GVar "%s")' % a
+
+    out = []
+    for fname_, src in (('strong', strong_src), ('weak', weak_src)):
+        src = re.sub(r"#\[cfg\(circ_verif\)\]\s*pub\s+mod\s+\w+\s*\{", "@@VERIFMOD{", src)
+        # cut the verification shims
+        while True:
+            m = re.search(r"@@VERIFMOD\{", src)
+            if not m:
+                break
+            j = find_matching(src, m.end() - 1)
+            src = src[:m.start()] + src[j + 1:]
+        table = {}      # key -> (is_entry, params, body)
+        for m in re.finditer(r"(?m)^(?:unsafe\s+)?impl\b([^{;]*)\{", src):
+            hd = " ".join(m.group(1).split())
+            j = find_matching(src, m.end() - 1)
+            block = src[m.end():j]
+            mt = re.search(r"(?:(\S.*?)\s+for\s+)?(\w+)(?:<[^{]*>)?\s*$", re.sub(r"^<[^>]*(?:<[^>]*>[^>]*)*>\s*", "", hd))
+            if not mt:
+                continue
+            trait, ty = mt.group(1), mt.group(2)
+            for fm in re.finditer(r"((?:pub(?:\([a-z]+\))?\s+)?)(?:const\s+)?(?:unsafe\s+)?fn\s+(\w+)\s*(?:<[^>]*>)?\s*\(", block):
+                pclose = find_matching(block, fm.end() - 1, '(', ')')
+                rest = block[pclose + 1:]
+                # the body starts at the first `{` outside brackets; a `;` outside brackets first = a declaration without body
+                b, dpt = -1, 0
+                for ii, ch in enumerate(rest.replace('->', '  ')):
+                    if ch in '[(<':
+                        dpt += 1
+                    elif ch in '])>':
+                        dpt -= 1
+                    elif ch == ';' and dpt <= 0:
+                        break
+                    elif ch == '{' and dpt <= 0:
+                        b = ii
+                        break
+                if b < 0:
+                    continue
+                bend = find_matching(block, pclose + 1 + b)
+                params = [x.split(':')[0].strip().replace('mut ', '').replace('&', '') for x in _split_args(block[fm.end():pclose]) if x.strip()]
+                key = ("%s for %s::%s" % (re.sub(r"<.*", "", trait), ty, fm.group(2))) if trait else ("%s::%s" % (ty, fm.group(2)))
+                entry = bool(trait) or fm.group(1).strip() == 'pub'
+                table[key] = (entry, params, block[pclose + 1 + b:bend + 1], ty)
+        cut = cut_impls(src)
+        for fm in re.finditer(r"((?:pub(?:\([a-z]+\))?\s+)?)(?:unsafe\s+)?fn\s+(\w+)\s*(?:<[^>]*>)?\s*\(", cut):
+            pclose = find_matching(cut, fm.end() - 1, '(', ')')
+            rest = cut[pclose + 1:]
+            b = rest.find('{')
+            if b < 0:
+                continue
+            bend = find_matching(cut, pclose + 1 + b)
+            params = [x.split(':')[0].strip().replace('mut ', '') for x in _split_args(cut[fm.end():pclose]) if x.strip()]
+            table["::" + fm.group(2)] = (fm.group(1).strip() == 'pub', params, cut[pclose + 1 + b:bend + 1], '')
+
+        memo = {}
+
+        def calls(key, depth=0):
+            if key in memo:
+                return memo[key]
+            if depth > 6:
+                raise TranslateError("%s: helper recursion" % key)
+            entry, params, body, ty = table[key]
+            text = _strip_macros(body)
+            res = []
+            for m in re.finditer(r"(?:(\w+)\s*::\s*|\.\s*|\b)(\w+)\s*\(", text):
+                name = m.group(2)
+                j = find_matching(text, m.end() - 1, '(', ')')
+                args = _split_args(text[m.end():j])
+                is_method = text[m.start()] == '.'
+                if name in CORE:
+                    full = len(args) + (1 if is_method else 0)
+                    # core call (the RcInner function): by its arity; `weak.increment_weak()` without a count is a helper of weak.rs
+                    if name == 'increment_strong' and is_method and not args:
+                        res.append('AIncS'); continue
+                    if name == 'is_not_destructed' and is_method and not args:
+                        res.append('AIsND'); continue
+                    if name == 'increment_weak' and is_method and len(args) == 1:
+                        res.append('(AIncW %s)' % acount(args[0])); continue
+                    if name == 'decrement_strong' and not is_method and len(args) == 3:
+                        res.append('(ADecS %s %s)' % (acount(args[1]), aguard(args[2]))); continue
+                    if name == 'decrement_weak' and not is_method and len(args) == 2:
+                        res.append('(ADecW %s)' % aguard(args[1])); continue
+                    if name == 'alloc' and m.group(1) == 'RcInner' and len(args) == 2:
+                        res.append('(AAlloc %s)' % acount(args[1])); continue
+                # a private helper of this file
+                cands = [k for k in table if k.endswith("::" + name) and not table[k][0]]
+                if m.group(1) in ('Self',) or is_method:
+                    cands = [k for k in cands if table[k][3] in (ty, '')] or cands
+                if len(cands) == 1 and cands[0] != key:
+                    hk = cands[0]
+                    sub = calls(hk, depth + 1)
+                    hparams = [p_ for p_ in table[hk][1] if p_ != 'self']
+                    for c_ in sub:
+                        for pn, av in zip(hparams, args):
+                            av_n = norm(av)
+                            if av_n == 'None':
+                                c_ = c_.replace('(GVar "%s")' % pn, 'GNone')
+                            elif av_n.startswith('Some('):
+                                c_ = c_.replace('(GVar "%s")' % pn, 'GSome')
+                            else:
+                                c_ = c_.replace('(GVar "%s")' % pn, '(GVar "%s")' % av_n)
+                            if re.fullmatch(r"\d+", av_n):
+                                c_ = c_.replace('(CVar "%s")' % pn, '(CNum %s)' % av_n)
+                            else:
+                                c_ = c_.replace('(CVar "%s")' % pn, '(CVar "%s")' % av_n)
+                        res.append(c_)
+            memo[key] = res
+            return res
+
+        for key in sorted(table):
+            if table[key][0]:
+                cl = calls(key)
+                if cl:
+                    out.append('("%s.rs %s", [%s])' % (fname_, key, "; ".join(cl)))
+    s = HEADER % "src/strong.rs, src/weak.rs (the count operations every entry point performs)"
+    s += "From Coq Require Import String.\nLocal Open Scope string_scope.\n\n"
+    s += "Inductive acount := CNum (n : Z) | CVar (name : string).\nInductive aguard := GNone | GSome | GVar (name : string).\n"
+    s += "Inductive acall := AIncS | ADecS (cnt : acount) (g : aguard) | AIncW (cnt : acount) | ADecW (g : aguard) | AIsND | AAlloc (cnt : acount).\n\n"
+    s += "Definition api_calls : list (string * list acall) :=\n  [ " + ";\n    ".join(out) + " ].\n"
+    return s
+
+
 def gen(repo):
     files = {}
     failed = {}
@@ -1739,6 +1886,13 @@ def gen(repo):
         failed['EbrProtoW.v'] = str(ex)
     except (NameError, KeyError, UnboundLocalError) as ex:
         failed['EbrProtoW.v'] = 'depends on a part of the source that could not be translated (%s)' % ex
+    # ---------------- ApiCallsW.v : which count operations every entry point of strong.rs / weak.rs performs
+    try:
+        files['ApiCallsW.v'] = gen_apicalls(rd('src/strong.rs'), rd('src/weak.rs'))
+    except TranslateError as ex:
+        failed['ApiCallsW.v'] = str(ex)
+    except (NameError, KeyError, UnboundLocalError) as ex:
+        failed['ApiCallsW.v'] = 'depends on a part of the source that could not be translated (%s)' % ex
     # ---------------- DeferredW.v : when Deferred::new stores a closure inline in its Data buffer
     try:
         dfn = get_fns(get_impl(deferred, r"impl\s+Deferred"))
